@@ -109,6 +109,7 @@ def readSelectionSet : Nat → P → (Nat × Option Err) × P
       ((0, some ioErr), reRead p)
     | (some b, p) =>
       if b != 123 then ((0, none), p)
+      else if tooDeep cm (reRead p) then ((0, some (reRead p).perr), reRead p)
       else
         let r := selLoop n (reRead p).enter 0
         (r.1, r.2.leave)
